@@ -525,6 +525,7 @@ func runC15(c *Ctx) {
 	ruleStatus(c, a)
 	ruleWiring(c, a)
 	rulePassthru(c, "PASSTHRU")
+	ruleLoopVar(c, "ONCE", "service")
 	ruleArityAll(c, "ARITY")
 	ruleDirWiring(c, "WIRING")
 }
